@@ -182,6 +182,13 @@ class PRODEngine(Engine):
             # several sends to a topic that does not exist, close together (their partition lookups overlap), then a good one
             nosuch = ["send", len(self.tnames), -1, "t"]
             return [nosuch, nosuch, ["send", len(self.tnames), 0, "tt"], nosuch, ["run", draw(st.integers(4, 30))], send(), ["run", 30], ["timer"], ["run", 20], ["timer"], ["run", 20]]
+        if kind == "outage":
+            # a broker refuses connections for longer than the request timeout (sends to its partitions fail, nothing stays queued on its
+            # broker client while that keeps dialling), then accepts again
+            seq = warm + [["refuse", b], ["drop", 0], ["drop", 0], ["drop", 0], send(), send(), ["run", 12]]
+            for _ in range(draw(st.integers(2, 7))):
+                seq += [["wait", draw(st.sampled_from([4, 5, 6, 6]))], ["run", 12]]
+            return seq + [["refuse", b], send(), ["run", 20], ["wait", 5], ["run", 20], ["wait", 6], ["run", 20]]
         if kind == "partial":
             # several partitions in one batch, an error code on one of them for the next k attempts
             p = draw(st.integers(0, nparts - 1))
@@ -982,15 +989,22 @@ class PRODEngine(Engine):
             # C08 recovery: after the last fault, a fresh send must be acknowledged within the retry budget
             quiet = self._quiet_phase()
             if quiet and self.config["acks"] != 0:
-                self.apply_quiet(["send", 0, -1, "t"])
-                probe = self.sends[-1]
-                quiet2 = self._quiet_phase()
+                # "within the retry budget": a probe whose partition still has a stale leader cached may use its whole budget up on
+                # learning that (one attempt is a legal budget); every such failure invalidates routing, so one of a few probes succeeds
+                nprobe = len(self.config["topics"][0]["leaders"]) + 2
+                for _ in range(nprobe):
+                    self.apply_quiet(["send", 0, 0, "t"])
+                    probe = self.sends[-1]
+                    quiet2 = self._quiet_phase()
+                    if not quiet2 or probe.watch is None or probe.watch.state != "err":
+                        break
+                    self.labels.add("recovery-probe-failed-once")
                 if quiet2 and probe.watch is not None:
                     recovered = probe.watch.state == "ok"
                     if probe.watch.state == "pending" and not self.config["batch"]:
                         self.note("C08.recovery", "C08.producer-did-not-recover/pending", "a send issued after all faults ceased is still pending at quiescence")
                     elif probe.watch.state == "err" and not self.config["batch"]:
-                        self.note("C08.recovery", "C08.producer-did-not-recover/%s" % probe.watch.value.type.__name__, "a send issued after all faults ceased failed with %s" % probe.watch.value.getErrorMessage()[:200])
+                        self.note("C08.recovery", "C08.producer-did-not-recover/%s" % probe.watch.value.type.__name__, "%d sends in a row issued after all faults ceased failed, the last with %s" % (nprobe, probe.watch.value.getErrorMessage()[:200]))
                     if recovered:
                         self.nt.add("recovered-after-faults")
         else:
